@@ -668,6 +668,8 @@ class SimpRun(object):
                         ('or_', lambda a, b: a | b), ('rshift', lambda a, b: a >> b), ('lshift', lambda a, b: a << b), ('neg', lambda a: -a), ('eq', lambda a, b: a == b), ('ne', lambda a, b: a != b)):
             setattr(op_mod, nm_, Native(f_))
         scope['operator'] = op_mod
+        scope['hash'] = Native(hash)
+        scope['id'] = Native(id)
         # module-level tables of both modules (tab_size_int, op_assoc, whatever named constants the rules use), evaluated in source order
         for mod in (self.expr, self.hlp):
             for st in mod.tree.body:
